@@ -577,6 +577,7 @@ UriBool URI_FUNC(FixAmbiguity)(URI_TYPE(Uri) * uri,
 	if (	/* Case 1: absolute path, empty first segment */
 			(uri->absolutePath
 			&& (uri->pathHead != NULL)
+			&& (uri->pathHead->next != NULL)
 			&& (uri->pathHead->text.afterLast == uri->pathHead->text.first))
 
 			/* Case 2: relative path, empty first and second segment */
